@@ -33,6 +33,14 @@
   the block is still live (use of a freed block = fault).  All methods run in the monad
   `M α = Ledger → Option (α × Ledger)`; `new`, `delete[]` and the accesses appear in the order
   of the C++ text.  Not modelled: allocation failure.
+
+  Capacity policy: *which* capacity a method gives the block it allocates is not part of the
+  contract of Buffer (only: at least what the method needs).  Every allocating method therefore
+  takes a parameter `k` (the capacity the environment asks for; `0` = no wish) and allocates
+  `newCap required k = max required k` (+1 for the terminator).  With `k = 0` this is exactly
+  what Buffer.hpp does today.  The theorems hold for every `k` at every step; the
+  correspondence run passes the capacity the implementation reports after the operation, so the
+  branch decisions of later operations (which depend on `_capacity`) follow the implementation.
 -/
 namespace Nstd.Buffer
 
@@ -140,6 +148,9 @@ def Buf.ownId (b : Buf) : Option Nat :=
 def noOverlap (dst src n : Nat) : Bool :=
   n = 0 || dst = src || dst + n ≤ src || src + n ≤ dst
 
+/-- the capacity of a newly allocated block: what the method needs, or more if the environment asks for more -/
+def newCap (required k : Nat) : Nat := max required k
+
 /-- `p - n` on a pointer at offset `p` (leaving the block downwards is a fault) -/
 def ptrSub (p n : Nat) : Option Nat := if n ≤ p then some (p - n) else none
 
@@ -152,19 +163,21 @@ def Buf.default (self : Nat) : Buf := { store := .dflt self, s := 0, e := 0, cap
 def Buf.destroy (b : Buf) : M Unit := b.store.release
 
 /-- `Buffer(usize capacity)` -/
-def Buf.ctorCap (capacity : Nat) : M Buf := do
-  let st ← newBlock (capacity + 1)
+def Buf.ctorCap (capacity : Nat) (k : Nat) : M Buf := do
+  let cap := newCap capacity k
+  let st ← newBlock (cap + 1)
   let st ← st.write 0 [some 0]
-  pure { store := st, s := 0, e := 0, cap := capacity }
+  pure { store := st, s := 0, e := 0, cap := cap }
 
 /-- `Buffer(const byte* data, usize size)`; also `Buffer(const Buffer& other)` with the
     bytes `[other.bufferStart, other.bufferEnd)` already loaded -/
-def Buf.ctorData (data : List Byte) : M Buf := do
+def Buf.ctorData (data : List Byte) (k : Nat) : M Buf := do
   let size := data.length
-  let st ← newBlock (size + 1)
+  let cap := newCap size k
+  let st ← newBlock (cap + 1)
   let st ← st.write 0 data
   let st ← st.write size [some 0]
-  pure { store := st, s := 0, e := size, cap := size }
+  pure { store := st, s := 0, e := size, cap := cap }
 
 /-- the exposed bytes `[bufferStart, bufferEnd)` (a checked load) -/
 def Buf.contents (b : Buf) : M (List Byte) := b.store.load b.s (b.e - b.s)
@@ -179,14 +192,15 @@ def Buf.attach (b : Buf) (range : List Byte) : M Buf := do
 /-- `operator=(const Buffer& other)` for `&other != this` and `assign(const byte* data, usize size)`
     (the two bodies differ only in `Memory::move` vs `Memory::copy`, which agree for
     a source outside the block) -/
-def Buf.assign (b : Buf) (data : List Byte) : M Buf :=
+def Buf.assign (b : Buf) (data : List Byte) (k : Nat) : M Buf :=
   let size := data.length
   if size > b.cap then do
     b.store.release
-    let st ← newBlock (size + 1)
+    let cap := newCap size k
+    let st ← newBlock (cap + 1)
     let st ← st.write 0 data
     let st ← st.write size [some 0]
-    pure { store := st, s := 0, e := size, cap := size }
+    pure { store := st, s := 0, e := size, cap := cap }
   else
     match b.store with
     | .own _ _ => do
@@ -198,15 +212,16 @@ def Buf.assign (b : Buf) (data : List Byte) : M Buf :=
       pure { b with e := b.s }
 
 /-- `a = a` -/
-def Buf.assignSelf (b : Buf) : M Buf :=
+def Buf.assignSelf (b : Buf) (k : Nat) : M Buf :=
   let size := b.e - b.s
   if size > b.cap then do
     b.store.release
-    let st ← newBlock (size + 1)
+    let cap := newCap size k
+    let st ← newBlock (cap + 1)
     let d ← b.store.load b.s size     -- `other.bufferStart` still points into the old block
     let st ← st.write 0 d
     let st ← st.write size [some 0]
-    pure { store := st, s := 0, e := size, cap := size }
+    pure { store := st, s := 0, e := size, cap := cap }
   else
     match b.store with
     | .own _ _ => do
@@ -219,7 +234,7 @@ def Buf.assignSelf (b : Buf) : M Buf :=
 /-- `prepend(const byte* data, usize size)` / `prepend(const Buffer& data)` with `data` outside
     the object's own block (so the test `data + size <= buffer || data > buffer + _capacity`
     of the second branch holds) -/
-def Buf.prepend (b : Buf) (data : List Byte) : M Buf :=
+def Buf.prepend (b : Buf) (data : List Byte) (k : Nat) : M Buf :=
   let size := data.length
   if b.owning = true ∧ size ≤ b.s then do
     -- room in front
@@ -237,16 +252,17 @@ def Buf.prepend (b : Buf) (data : List Byte) : M Buf :=
       pure { b with store := st, s := 0, e := required }
     else do
       -- reallocate
-      let st ← newBlock (required + 1)
+      let cap := newCap required k
+      let st ← newBlock (cap + 1)
       let st ← st.write 0 data
       let old ← b.store.load b.s oldSize
       let st ← st.write size old
       b.store.release
       let st ← st.write required [some 0]
-      pure { store := st, s := 0, e := required, cap := required }
+      pure { store := st, s := 0, e := required, cap := cap }
 
 /-- `a.prepend(a)`: `data == bufferStart`, `size == bufferEnd - bufferStart` -/
-def Buf.prependSelf (b : Buf) : M Buf :=
+def Buf.prependSelf (b : Buf) (k : Nat) : M Buf :=
   let size := b.e - b.s
   if b.owning = true ∧ size ≤ b.s then do
     let d ← b.store.load b.s size
@@ -268,19 +284,20 @@ def Buf.prependSelf (b : Buf) : M Buf :=
         pure { b with store := st, s := 0, e := required }
       else fault
     else do
-      let st ← newBlock (required + 1)
+      let cap := newCap required k
+      let st ← newBlock (cap + 1)
       let d ← b.store.load b.s size
       let st ← st.write 0 d
       let old ← b.store.load b.s oldSize
       let st ← st.write size old
       b.store.release
       let st ← st.write required [some 0]
-      pure { store := st, s := 0, e := required, cap := required }
+      pure { store := st, s := 0, e := required, cap := cap }
 
 /-- `a.prepend((const byte*)a + off, len)` with `off + len ≤ a.size()`: the data is a sub-range of the
     object's own window (this is the case the test `data + size <= buffer || data > buffer + _capacity`
     of the second branch exists for) -/
-def Buf.prependSub (b : Buf) (off len : Nat) : M Buf :=
+def Buf.prependSub (b : Buf) (off len : Nat) (k : Nat) : M Buf :=
   let size := len
   let src := b.s + off                         -- `data` as an offset into the block
   if b.owning = true ∧ size ≤ b.s then do
@@ -302,33 +319,35 @@ def Buf.prependSub (b : Buf) (off len : Nat) : M Buf :=
         pure { b with store := st, s := 0, e := required }
       else fault
     else do
-      let st ← newBlock (required + 1)
+      let cap := newCap required k
+      let st ← newBlock (cap + 1)
       let d ← b.store.load src size
       let st ← st.write 0 d
       let old ← b.store.load b.s oldSize
       let st ← st.write size old
       b.store.release
       let st ← st.write required [some 0]
-      pure { store := st, s := 0, e := required, cap := required }
+      pure { store := st, s := 0, e := required, cap := cap }
 
 /-- the op line `prependsub v off len` clamps the sub-range to the window (so that it is always a
     valid argument): `off' = min off size`, `len' = min len (size - off')` -/
-def Buf.prependSubClamped (b : Buf) (off len : Nat) : M Buf :=
+def Buf.prependSubClamped (b : Buf) (off len : Nat) (k : Nat) : M Buf :=
   let size := b.e - b.s
   let off' := if off < size then off else size
   let len' := if len < size - off' then len else size - off'
-  b.prependSub off' len'
+  b.prependSub off' len' k
 
 /-- `resize(usize size)` -/
-def Buf.resize (b : Buf) (size : Nat) : M Buf :=
+def Buf.resize (b : Buf) (size : Nat) (k : Nat) : M Buf :=
   if size > b.cap then do
-    let st ← newBlock (size + 1)
+    let cap := newCap size k
+    let st ← newBlock (cap + 1)
     let oldSize := b.e - b.s
     let old ← b.store.load b.s (if oldSize < size then oldSize else size)
     let st ← st.write 0 old
     b.store.release
     let st ← st.write size [some 0]
-    pure { store := st, s := 0, e := size, cap := size }
+    pure { store := st, s := 0, e := size, cap := cap }
   else
     match b.store with
     | .own _ _ =>
@@ -354,17 +373,17 @@ def Buf.termIfOwning (b : Buf) : M Buf :=
   | _ => pure b
 
 /-- `append(const byte* data, usize size)` / `append(const Buffer& data)` for `&data != this` -/
-def Buf.append (b : Buf) (data : List Byte) : M Buf := do
+def Buf.append (b : Buf) (data : List Byte) (k : Nat) : M Buf := do
   let size := data.length
-  let b ← b.resize (b.e - b.s + size)
+  let b ← b.resize (b.e - b.s + size) k
   let dst ← liftO (ptrSub b.e size)
   let st ← b.store.write dst data
   Buf.termIfOwning { b with store := st }
 
 /-- `a.append(a)`: size is taken before, `data.bufferStart` after the `resize` -/
-def Buf.appendSelf (b : Buf) : M Buf := do
+def Buf.appendSelf (b : Buf) (k : Nat) : M Buf := do
   let size := b.e - b.s
-  let b ← b.resize (b.e - b.s + size)
+  let b ← b.resize (b.e - b.s + size) k
   let dst ← liftO (ptrSub b.e size)
   let d ← b.store.load b.s size
   if noOverlap dst b.s size then do
@@ -391,11 +410,11 @@ def Buf.removeBack (self : Nat) (b : Buf) (size : Nat) : M Buf :=
     let e ← liftO (ptrSub b.e size)
     Buf.termIfOwning { b with e := e }
 
-def Buf.reserve (b : Buf) (capacity : Nat) : M Buf :=
+def Buf.reserve (b : Buf) (capacity : Nat) (k : Nat) : M Buf :=
   if capacity ≤ b.cap then pure b
   else do
     let size := b.e - b.s
-    let capacity := if capacity < size then size else capacity
+    let capacity := newCap (if capacity < size then size else capacity) k
     let st ← newBlock (capacity + 1)
     let old ← b.store.load b.s size
     let st ← st.write 0 old
@@ -491,29 +510,30 @@ def State.updFrom (st : State) (v w : Nat) (f : Buf → List Byte → M Buf) : O
   let d ← contents st w
   st.upd v (fun b => f b d)
 
-def step (st : State) : Op → Option State
+/-- one operation; `k` = the capacity the environment asks for should the operation allocate (`0` = no wish) -/
+def step (st : State) (k : Nat) : Op → Option State
   -- the constructors re-create variable `v` in place: `v.~Buffer(); new (&v) Buffer(...)`
   | .ctorDefault v => st.upd v (fun b => do b.destroy; pure (Buf.default v))
-  | .ctorCap v n => st.upd v (fun b => do b.destroy; Buf.ctorCap n)
-  | .ctorData v d => st.upd v (fun b => do b.destroy; Buf.ctorData (bytesOf d))
+  | .ctorCap v n => st.upd v (fun b => do b.destroy; Buf.ctorCap n k)
+  | .ctorData v d => st.upd v (fun b => do b.destroy; Buf.ctorData (bytesOf d) k)
   | .ctorCopy v w =>
     -- the harness skips `copy v v` (an object cannot be copy-constructed from itself)
-    if v = w then st.upd v pure else st.updFrom v w (fun b d => do b.destroy; Buf.ctorData d)
+    if v = w then st.upd v pure else st.updFrom v w (fun b d => do b.destroy; Buf.ctorData d k)
   | .attach v r off len => do
     let region ← st.regs[r]?
     let range ← rdList region off len
     st.upd v (fun b => b.attach range)
-  | .assignBuf v w => if v = w then st.upd v Buf.assignSelf else st.updFrom v w Buf.assign
-  | .assignData v d => st.upd v (fun b => b.assign (bytesOf d))
-  | .prependData v d => st.upd v (fun b => b.prepend (bytesOf d))
-  | .prependBuf v w => if v = w then st.upd v Buf.prependSelf else st.updFrom v w Buf.prepend
-  | .prependSub v off len => st.upd v (fun b => b.prependSubClamped off len)
-  | .appendData v d => st.upd v (fun b => b.append (bytesOf d))
-  | .appendBuf v w => if v = w then st.upd v Buf.appendSelf else st.updFrom v w Buf.append
-  | .resize v n => st.upd v (fun b => b.resize n)
+  | .assignBuf v w => if v = w then st.upd v (fun b => b.assignSelf k) else st.updFrom v w (fun b d => b.assign d k)
+  | .assignData v d => st.upd v (fun b => b.assign (bytesOf d) k)
+  | .prependData v d => st.upd v (fun b => b.prepend (bytesOf d) k)
+  | .prependBuf v w => if v = w then st.upd v (fun b => b.prependSelf k) else st.updFrom v w (fun b d => b.prepend d k)
+  | .prependSub v off len => st.upd v (fun b => b.prependSubClamped off len k)
+  | .appendData v d => st.upd v (fun b => b.append (bytesOf d) k)
+  | .appendBuf v w => if v = w then st.upd v (fun b => b.appendSelf k) else st.updFrom v w (fun b d => b.append d k)
+  | .resize v n => st.upd v (fun b => b.resize n k)
   | .removeFront v n => st.upd v (fun b => b.removeFront v n)
   | .removeBack v n => st.upd v (fun b => b.removeBack v n)
-  | .reserve v n => st.upd v (fun b => b.reserve n)
+  | .reserve v n => st.upd v (fun b => b.reserve n k)
   | .clear v => st.upd v Buf.clear
   | .swap v w => do
     let a ← st.getBuf v
@@ -522,8 +542,9 @@ def step (st : State) : Op → Option State
     pure { st with bufs := bufs.set w (a.rehome w v) }
   | .free v => st.upd v (Buf.free v)
 
-def run (st : State) : List Op → Option State
+/-- a history: operations, each with the capacity wish of the environment for that step -/
+def run (st : State) : List (Op × Nat) → Option State
   | [] => some st
-  | op :: ops => do let st ← step st op; run st ops
+  | (op, k) :: ops => do let st ← step st k op; run st ops
 
 end Nstd.Buffer
